@@ -192,11 +192,35 @@ def run(ctx, rep):
             ga = " ".join((t.get("gargs") or []) + ((t.get("resolved") or {}).get("gargs") or []))
             rep.check("C16.c", f"{key}/non-empty-arg/{ws.index(w) + 1}", "std::iter::Empty" not in ga, where=where(E, w), what=f"{key}: warm_up_wait is given the ids to be read (not an empty iterator)")
         reach = E.reachable_from(0, cut_edges=cut)
+        # no producer of the set of packs that is read may run after the warm-up: everything that contributed to the
+        # ids handed to the read site (calls of rustic_core functions in the backward slice of its arguments) precedes it
+        for i, r in enumerate(packreads, 1):
+            t = E.term(r)
+            if not (t["k"] == "call" and B(t)):
+                continue  # read happens inside a closure: the captured environment is too coarse for this rule
+            prod = set()
+            for a in t["args"]:
+                if op_place(a):
+                    prod |= flow.backward_slice(E, op_place(a))["call_sites"]
+            late = []
+            for pb in sorted(prod):
+                pt = E.term(pb)
+                if pt["k"] != "call" or "callee" not in pt or pb == r or pb in ws:
+                    continue
+                cn = callee(pt)
+                if not cn.startswith(("rustic_core::", "<rustic_core::")) or re.search(r"progress|Progress", cn):
+                    continue
+                if any(C.can_reach(E, w, pb) for w in ws):
+                    late.append(f"{strip_crate(cn)} @{where(E, pb)}")
+            rep.check("C16.c", f"{key}/read-set-complete-before-warm-up/{i}", not late, where=where(E, r),
+                      what=f"{key}: everything that determines which packs are read runs before warm_up_wait" if not late else
+                           f"{key}: the set of packs read is still extended AFTER warm_up_wait by {late}: those packs are read from the cold store without warm-up")
         for i, r in enumerate(packreads, 1):
             has_r = any(e[0] == "R" for e in per.get(r, ()))
             ok = r not in reach and r not in ws
             rep.check("C16.c", f"{key}/read-after-warm-up/{i}", ok and has_r, where=where(E, r),
                       what=f"{key}: the cold pack read happens only after a successful warm_up_wait" if ok else f"{key}: a cold pack read is reachable WITHOUT a preceding successful warm_up_wait")
+    rule_e(ctx, rep)
     # ---- C16.d -------------------------------------------------------------------------------------
     SC = prog.find1(r"^rustic_core::commands::config::save_config$")
     SH = prog.find1(r"^rustic_core::commands::config::save_config_hot$")
@@ -220,6 +244,44 @@ def run(ctx, rep):
     if st:
         saves = [bb for bb, t in SH.calls() if "callee" in t and re.search(r"save_file_uncompressed$", callee(t))]
         rep.check("C16.d", "save_config_hot/set-before-save", bool(saves) and all(C.dominates(SH, st[0][0], x) for x in saves), where=SH.loc(), what="is_hot is set before the hot config is saved")
+
+
+def rule_e(ctx, rep):
+    """C16.e the hot/cold repair copies what belongs in the hot store: every non-pack file type, and the tree packs of
+    BOTH index sections (packs still marked for deletion exist in the cold store and belong in hot as well)"""
+    prog = ctx.prog
+    rep.rule("C16.e", "hot/cold repair covers every non-pack file type and every tree pack listed by any index section")
+    G = prog.find1(r"^rustic_core::commands::repair::hotcold::get_tree_packs$")
+    fam = [G] + prog.closures_of(G)
+    calls, fields, txt = set(), set(), ""
+    for f in fam:
+        sl = flow.backward_slice(f, [0])
+        calls |= sl["calls"]
+        fields |= sl["fields"]
+        for bb, t in f.calls():
+            if "callee" in t and re.search(r"::insert$|::extend$|::collect$|::filter(_map)?$", callee_decl(t)):
+                for a in t["args"]:
+                    if op_place(a):
+                        s2 = flow.backward_slice(f, op_place(a))
+                        calls |= s2["calls"]
+                        fields |= s2["fields"]
+        for sw in range(len(f.blocks)):
+            if f.term(sw)["k"] == "switch":
+                txt += repr(flow.expr_of(f, f.term(sw)["discr"]))
+        if f.is_closure():
+            txt += repr(flow.place_expr(f, [0]))
+    both = any(c_.endswith("indexfile::IndexFile::all_packs") for c_ in calls) or {"packs", "packs_to_delete"} <= fields
+    rep.check("C16.e", "get_tree_packs/both-sections", both, where=G.loc(),
+              what="get_tree_packs considers the packs of both index sections (packs and packs_to_delete)" if both else
+                   "get_tree_packs looks only at part of the index (tree packs marked for deletion still exist in cold and are not restored to hot)")
+    tree = "blob_type" in txt and "Tree" in txt
+    rep.check("C16.e", "get_tree_packs/tree-filter", tree, where=G.loc(), what="only packs whose blob type is Tree are selected")
+    R = prog.find1(r"^rustic_core::commands::repair::hotcold::repair_hotcold$")
+    uses_all = any("item" in (a[1] if a[0] == "k" else {}) and a[1]["item"].endswith("ALL_FILE_TYPES") for _, t in R.calls() for a in t["args"]) or \
+        any(s[0] == "=" and s[2][0] == "use" and s[2][1][0] == "k" and str(s[2][1][1].get("item", "")).endswith("ALL_FILE_TYPES") for blk in R.blocks for s in blk["s"])
+    rep.check("C16.e", "repair_hotcold/all-file-types", uses_all, where=R.loc(), what="repair_hotcold iterates ALL_FILE_TYPES (every non-pack type is repaired)")
+    c = prog.consts.get("rustic_core::backend::ALL_FILE_TYPES")
+    rep.check("C16.e", "all-file-types-len", c is not None and c["ty"].endswith("; 4]"), where="crates/core/src/backend.rs", what=f"ALL_FILE_TYPES lists the 4 non-config file types ({c['ty'] if c else None})")
 
 
 def _expr_of_rv(body, rv):
